@@ -21,7 +21,7 @@ import ast
 from ..core import AnalysisError, norm, short
 from .. import effects
 from ..loader import ClassInfo
-from .dispatch import DispatchView
+from .dispatch import DispatchView, strip_not
 from .common import (cfg_of, fkey, conds, has_cond, cond_texts, stmts_of, walk_body, call_tail, call_name, returns_of,
                      raises_of, raise_type, stmt_of, kwarg, names_loaded)
 
@@ -88,8 +88,13 @@ def run(rep):
                   'documented set-up write of the routing table' if ok else
                   '%s writes a routing table (%s): routes may be reordered / removed after insertion' % (fi.key, short(e.node)), m, e.node)
     check_running_index(rep, 'R06.a')
-    it = norm(dv.loop.iter)
-    ok = it in ('self.routes + [self._null_route]', 'itertools.chain(self.routes, [self._null_route])', 'chain(self.routes, [self._null_route])')
+    it = norm(dv.iter_expr)
+    ok = it in ('self.routes + [self._null_route]', '[*self.routes, self._null_route]', 'itertools.chain(self.routes, [self._null_route])',
+                'chain(self.routes, [self._null_route])')
+    if ok and dv.iter_expr is not dv.loop.iter:
+        # the sequence is held in a local first: that local is read by the loop only (nobody re-orders it in between)
+        ok = isinstance(dv.loop.iter, ast.Name) and \
+            sum(1 for n in walk_body(f.node) if isinstance(n, ast.Name) and n.id == dv.loop.iter.id and isinstance(n.ctx, ast.Load)) == 1
     rep.check('R06.a', fkey(f, 'iteration'), ok, 'dispatch walks self.routes in list order, then the null route' if ok else
               'dispatch does not iterate self.routes + [null route] directly: %s' % it, app, dv.loop)
     rep.floor('R06.a', 5)
@@ -125,21 +130,26 @@ def check_running_index(rep, rule):
 def _rest(rep, repo, app, route, err, dv, cfg, f):
     # ---- R06.b -----------------------------------------------------------
     head = dv.head
-    # (i) no effect before the path test
-    first_two = dv.loop.body[:2]
-    ok = first_two and first_two[0] is dv.match_st and len(first_two) == 2 and isinstance(first_two[1], ast.If) and \
-        dv.is_nomatch(first_two[1].test) and len(first_two[1].body) == 1 and isinstance(first_two[1].body[0], ast.Continue)
+    # (i) no effect before the path test: the loop body starts with the match, its result is tested for None next, and the
+    #     no-match side does nothing but move on to the next route
+    nm = dv.nomatch_branches()
+    m_nodes = cfg.nodes_of(dv.match_st)
+    nxt = [m for n in m_nodes for m in cfg.succ[n] if (n, m) not in cfg.exc_edges]
+    tested_next = bool(nxt) and all(cfg.nodes[m].kind == 'head' and isinstance(cfg.nodes[m].stmt, ast.If) and
+                                    dv.nomatch_pol(strip_not(cfg.nodes[m].stmt.test)[0]) is not None for m in nxt)
+    after_nm = cfg.reach(nm, avoid=head, normal_only=True) - set(nm)
+    ok = bool(dv.loop.body) and dv.loop.body[0] is dv.match_st and tested_next and bool(nm) and \
+        all(cfg.nodes[m].kind == 'stmt' and isinstance(cfg.nodes[m].stmt, (ast.Continue, ast.Pass)) for m in after_nm) and \
+        bool(set(head) & cfg.reach(nm, normal_only=True)) and cfg.exit not in cfg.reach(nm, avoid=head)
     rep.check('R06.b', fkey(f, 'path mismatch continues'), ok,
               'a route whose pattern does not match is skipped before any other effect' if ok else
               'the loop does not start with "params = route.match_path(path); if params is None: continue"', app, dv.loop)
-    ok = norm(dv.match_st.value.args[0]) == 'url_path' and any(
-        isinstance(s, ast.Assign) and 'url_path' in [norm(x) for x in (s.targets[0].elts if isinstance(s.targets[0], ast.Tuple) else [s.targets[0]])]
-        and 'request.path' in norm(s.value) for s in stmts_of(f.node))
+    ok = bool(dv.match_call.args) and dv.is_request_attr(dv.match_call.args[0], 'path')
     rep.check('R06.b', fkey(f, 'matches request.path'), ok, 'patterns are matched against request.path' if ok else
               'match_path is not applied to request.path', app, dv.match_st)
     # (ii) method mismatch
     upd = dv.calls_stmt('update_methods', dv.ds_var)
-    mm_t = [nid for nid, t_, p_ in cfg.branches() if norm(t_) == dv.ma_var and p_ is False]
+    mm_t = dv.method_branches(False)
     exec_nodes = cfg.nodes_of(dv.exec_st)
     ok = bool(mm_t) and bool(upd) and cfg.must_pass(cfg.nodes_of_all(upd), mm_t, head, normal_only=True) and \
         not (set(exec_nodes) & cfg.reach(mm_t, avoid=head)) and \
@@ -149,8 +159,7 @@ def _rest(rep, repo, app, route, err, dv, cfg, f):
               'a method mismatch records route.methods (for the 405) and moves on without executing the route' if ok else
               'after a method mismatch the route\'s methods are not recorded on every path, or the route is executed anyway', app,
               upd[0] if upd else dv.method_st)
-    ok = norm(dv.method_st.value.args[0]) == 'method' and any(
-        isinstance(s, ast.Assign) and 'request.method' in norm(s.value) and 'method' in norm(s.targets[0]) for s in stmts_of(f.node))
+    ok = bool(dv.method_call.args) and dv.is_request_attr(dv.method_call.args[0], 'method')
     rep.check('R06.b', fkey(f, 'matches request.method'), ok, 'match_method is given request.method' if ok else
               'match_method is not applied to request.method', app, dv.method_st)
     # (iii) from execute back to the loop header
@@ -170,17 +179,17 @@ def _rest(rep, repo, app, route, err, dv, cfg, f):
     rep.check('R06.b', fkey(f, 'non-breaking error continues'), ok, 'after recording a non-breaking error the next route is tried' if ok else
               'a non-breaking error does not lead to trying the next route', app, addx[0] if addx else dv.exec_st)
     # is_breaking default must be True (missing attribute => breaking)
-    bt = [n.test for n in cfg.nodes if n.kind == 'branch' and 'is_breaking' in norm(n.test)]
+    bt = [t_ for nid, t_, p_ in cfg.branches() if 'is_breaking' in norm(t_)]
     ok = bool(bt) and all(norm(t) in ("getattr(%s, 'is_breaking', True)" % dv.ret_var, '%s.is_breaking' % dv.ret_var) for t in bt)
     rep.check('R06.b', fkey(f, 'is_breaking default'), ok, 'errors are breaking unless marked otherwise' if ok else
               'is_breaking test changed: %s' % [norm(t) for t in bt], app, dv.exec_st)
     # (iv) dominance
-    cs = conds(f, dv.exec_st)
+    cs = dv.conds(dv.exec_st)
     ok = dv.method_ok_conds(cs) and dv.matched_conds(cs)
     rep.check('R06.b', fkey(f, 'execute guarded'), ok, 'a route is executed only if its pattern matched and its methods admit the request' if ok else
               'route.execute is reachable without a successful path and method test: %s' % '; '.join(cond_texts(cs)), app, dv.exec_st)
     br_ifs = [s for s in stmts_of(f.node) if isinstance(s, ast.If) and norm(s.test) == '%s.is_branch' % dv.route_var]
-    ok = bool(br_ifs) and all(dv.method_ok_conds(conds(f, s)) for s in br_ifs)
+    ok = bool(br_ifs) and all(dv.method_ok_conds(dv.conds(s)) for s in br_ifs)
     rep.check('R06.b', fkey(f, 'method test before slash handling'), ok, 'slash handling happens only for admitted methods' if ok else
               'slash handling is reachable before/without the method test', app, br_ifs[0] if br_ifs else dv.loop)
     rep.floor('R06.b', 9)
